@@ -147,6 +147,9 @@ impl Ctx {
     pub fn op(&mut self, op: &str) {
         self.line(op, "ok");
     }
+    pub fn current_case(&self) -> String {
+        self.cur_sample.clone()
+    }
     pub fn begin_case(&mut self, desc: &str) {
         self.end_case();
         self.cur_open = true;
